@@ -284,6 +284,7 @@ SYMNAME = re.compile('233c73796d626f6c2d3078(?:3[0-9]|6[1-6])+3e')
 SYMNAME_MASKED = '#<symbol-0x?>'.encode().hex()
 SPELLED = re.compile(rb'%0 \(cons %x(?: \(cons %[0-9a-f?])+')
 SPELLED_MARK = b'%0 (cons %x (cons %?'
+SPELLED_FLAT = re.compile(rb'%0 %x(?: %[0-9a-f?])+')
 
 def canon(line):
     """mask address text inside hex-encoded printed text (the only permitted variation)"""
@@ -297,6 +298,10 @@ def canon(line):
             # the digits collapse to one `%?` and, since every digit also contributes a closing parenthesis at the far end of
             # the chain, closing parentheses are not compared in such a text
             raw = SPELLED.sub(rb'%0 (cons %x (cons %?', raw).replace(b')', b'')
+        if SPELLED_FLAT.search(raw):
+            # the same inside a proper list that is not a string: (10 %# %< %s … %0 %x %5 %6 … %>)
+            raw = SPELLED_FLAT.sub(rb'%0 %x %?', raw)
+            return ADDR.sub(b'0x?', raw).hex()
         if b'0x' not in raw:
             return raw.hex() if SPELLED_MARK in raw else h
         return ADDR.sub(b'0x?', raw).hex()
